@@ -142,12 +142,76 @@ class C15(Prop):
                     tuples.append(tp)
                 else:
                     tuples.append([unit6(rng) for _ in range(ne)])
+            if i == 0:
+                for fc in self.extra_cases(rng, tier):
+                    yield fc
             yield {'kind': 'joint', 'events': events, 'tuples': tuples, 'phase': phase, 'relative': rng.random() < 0.8,
                    'min_int': rng.choice([0, 1, 2, 2, 3, 5]), 'return_zero': rng.random() < 0.6,
                    'consistent': consistent, 'scales': scales, 'err_level': err_level if consistent else None,
                    'probe_seed': rng.randrange(1 << 30)}
 
+    def extra_cases(self, rng, tier):
+        """joint inversions requested through the Inversion front end (serial random sampling): broad polarity data so that a good share
+        of the sampled tuples has non-zero probability, relative P amplitudes on partially overlapping stations"""
+        for i in range(4 if tier == 'quick' else 30):
+            ne = rng.choice([2, 3])
+            events, truth = [], []
+            for e in range(ne):
+                names = rng.sample(POOL, rng.randint(2, 6))
+                m_true = unit6(rng)
+                k = 10 ** rng.uniform(-1, 1)
+                rows, prow = [], []
+                for nm in names:
+                    az, toa = rng.uniform(0, 360), rng.uniform(10, 80)
+                    amp = k * sum(a * b for a, b in zip(dg.coeff_row('p', az, toa), m_true))
+                    perr = rng.choice([0.1, 0.2, 0.3])
+                    rows.append({'name': nm, 'az': az, 'toa': toa, 'amp': amp * (1 + perr * rng.gauss(0, 0.5)), 'err': perr * abs(amp), 'phase': 'p'})
+                    prow.append({'name': nm, 'az': az, 'toa': toa, 'measured': [1.0 if amp >= 0 else -1.0], 'error': [0.5], 'ipp': None})
+                events.append({'abs': {'types': {'PPolarity': prow}, 'loc': None, 'weights': None}, 'rel': rows})
+                truth.append(m_true)
+            yield {'kind': 'frontend', 'events': events, 'tuples': [], 'phase': 'p', 'relative': True, 'min_int': rng.choice([1, 2, 2, 3, 4]),
+                   'return_zero': True, 'consistent': False, 'scales': [1.0] * ne, 'err_level': None, 'probe_seed': rng.randrange(1 << 30),
+                   'samples': rng.choice([150, 300])}
+
     # ------------------------------------------------------------------ implementation
+    def _frontend(self, case):
+        import contextlib
+        import io
+        import os
+        import shutil
+        import tempfile
+        np, inv = self.np, self.inv
+        evs = []
+        for n_, e in enumerate(case['events']):
+            data, _loc = dg.to_mtfit(e['abs'], np)
+            rows = e['rel']
+            data['PAmplitude'] = {'Stations': {'Name': [r['name'] for r in rows], 'Azimuth': np.matrix([[r['az']] for r in rows]),
+                                               'TakeOffAngle': np.matrix([[r['toa']] for r in rows])},
+                                  'Measured': np.matrix([[r['amp']] for r in rows]), 'Error': np.matrix([[r['err']] for r in rows])}
+            data['UID'] = 'ev%d' % n_
+            evs.append(data)
+        cwd = os.getcwd()
+        tmp = tempfile.mkdtemp(prefix='c15fe_')
+        sink = io.StringIO()
+        try:
+            os.chdir(tmp)
+            np.random.seed(case['probe_seed'] % (2 ** 32))
+            with contextlib.redirect_stdout(sink), contextlib.redirect_stderr(sink):
+                I = inv.Inversion(evs, multiple_events=True, algorithm='iterate', max_samples=case['samples'], number_samples=case['samples'] // 2,
+                                  parallel=False, phy_mem=0.5, relative_amplitude=True, minimum_number_intersections=case['min_int'], convert=False)
+                I._random_sampling_multiple_forward()
+            ps = I.algorithm.pdf_sample
+            n = len(ps)
+            M = np.asarray(ps.moment_tensors[:, :n], dtype=float)
+            ln = ps.ln_pdf
+            ln = np.asarray(ln._ln_pdf if hasattr(ln, '_ln_pdf') else ln, dtype=float).flatten()[:n]
+        finally:
+            os.chdir(cwd)
+            shutil.rmtree(tmp, ignore_errors=True)
+        ne = len(case['events'])
+        tuples = [[[float(v) for v in M[6 * e:6 * e + 6, c]] for e in range(ne)] for c in range(min(n, 12))]
+        return tuples, [float(v) for v in ln[:len(tuples)]]
+
     def _matrices(self, e, phase):
         np, inv = self.np, self.inv
         data, _loc = dg.to_mtfit(e['abs'], np)
@@ -243,6 +307,13 @@ class C15(Prop):
         return len(shared), ([float(v) for v in np.asarray(lnp).flatten()], [float(v) for v in np.asarray(sc).flatten()])
 
     def impl(self, case):
+        fe = None
+        if case['kind'] == 'frontend':
+            tuples, fe_ln = self._frontend(case)
+            if not tuples:
+                tuples, fe_ln = [[unit6(__import__('random').Random(case['probe_seed'] + e)) for e in range(len(case['events']))]], None
+            case['tuples'] = tuples
+            fe = fe_ln
         ev, tp, ph = case['events'], case['tuples'], case['phase']
         out = self._run(copy.deepcopy(ev), tp, ph, case['relative'], case['min_int'], case['return_zero'])
         out['full'] = self._run(copy.deepcopy(ev), tp, ph, case['relative'], case['min_int'], True)
@@ -261,6 +332,8 @@ class C15(Prop):
         for e in ev2:
             rng.shuffle(e['rel'])
         out['shuffled'] = self._run(ev2, tp, ph, case['relative'], case['min_int'], True)
+        if case['kind'] == 'frontend':
+            out['frontend_ln'] = fe
         return out
 
     # ------------------------------------------------------------------ model
@@ -396,6 +469,13 @@ class C15(Prop):
             out.append(('filter', 'without zero filtering the returned tuples are %r' % impl['idx'], None))
         if impl['n'] != nt:
             out.append(('count', 'n is %d for %d tuples' % (impl['n'], nt), None))
+        if impl.get('frontend_ln') is not None:
+            fl_ = impl['frontend_ln']
+            bad = [ti for ti in range(min(nt, len(fl_))) if not lp_close(fl_[ti], exp[ti], extra=xt)]
+            if bad:
+                out.append(('frontend', 'the inversion front end stored %r for tuple %d, the sum of event terms and pair terms with the configured minimum '
+                            'of %d shared stations is %r (shared %r)' % (fl_[bad[0]], bad[0], case['min_int'], exp[bad[0]],
+                                                                        {k: v['n'] for k, v in impl['pairs'].items()}), None))
         return out[:4]
 
     def nontrivial(self, case, impl):
@@ -404,6 +484,8 @@ class C15(Prop):
     def branch(self, case, impl):
         if not isinstance(impl, dict) or 'pairs' not in impl:
             return 'error'
+        if case['kind'] == 'frontend':
+            return 'frontend/E%d/min%d/%s' % (len(case['events']), case['min_int'], 'values' if impl.get('frontend_ln') else 'no-samples')
         ns = [v['n'] for v in impl['pairs'].values()]
         used = [n for n in ns if n >= case['min_int'] and n > 0]
         return 'E%d/%s/%s/%s' % (len(case['events']), 'rel' if case['relative'] else 'norel',
